@@ -113,4 +113,560 @@ theorem stepCaller_spec {s s' : St} {i : Nat} (h : stepCaller s i = some s') :
     · rename_i c' lk hcs
       exact ⟨c, c', lk, hc, hcs, by simpa using h.symm⟩
 
+/-! ### the basic invariant -/
+
+/-- the caller is between acquiring and releasing `close_lock` -/
+def critPc (c : Caller) : Bool :=
+  match c.pc with
+  | .chkEvt | .rel | .relExc => true
+  | .chk1 | .chk2 | .submit | .wait =>
+    match c.prog with
+    | op :: _ => op.isClose
+    | [] => false
+  | _ => false
+
+/-- the program counter is one the current call can be at -/
+def pcOk (c : Caller) : Bool :=
+  match c.prog with
+  | [] => c.pc == .idle
+  | op :: _ =>
+    match c.pc with
+    | .idle => true
+    | .acq | .chkEvt | .rel | .relExc | .waitEvt | .join => op.isClose
+    | .chk1 => op == .send || op.isClose
+    | .chk2 | .submit | .wait => op != .sendUnseq
+
+/-- a future exists exactly while the caller is at `future.result()` -/
+def jobOk (c : Caller) : Bool :=
+  match c.pc with
+  | .wait => c.job != .none
+  | _ => c.job == .none
+
+/-- flags of the executor / facade as a function of where the close procedure stands -/
+def ginv (s : St) : Bool :=
+  match s.closePc with
+  | .idle | .spawned | .begun | .wantLock =>
+    !s.stopReq && !s.closedEvent && s.lock != some .loop && s.loopAlive
+  | .haveLock => !s.stopReq && !s.closedEvent && s.lock == some .loop && s.loopAlive
+  | .stopCalled => s.stopReq && !s.closedEvent && s.lock == some .loop && s.loopAlive
+  | .eventSet => s.stopReq && s.closedEvent && s.lock == some .loop && s.loopAlive
+  | .done => s.stopReq && s.closedEvent && s.lock != some .loop
+
+def cinv (lock : Option Tid) (i : Nat) (c : Caller) : Prop :=
+  pcOk c = true ∧ jobOk c = true ∧ (critPc c = true ↔ lock = some (.caller i))
+
+def Inv1 (s : St) : Prop :=
+  ginv s = true ∧ ∀ i c, s.callers[i]? = some c → cinv s.lock i c
+
+/-- what a caller step does to the lock -/
+inductive LockEff (lock : Option Tid) (i : Nat) : Option Tid → Prop
+  | same : LockEff lock i lock
+  | acq : lock = none → LockEff lock i (some (.caller i))
+  | rel : lock = some (.caller i) → LockEff lock i none
+
+theorem callerStep_cinv {lock : Option Tid} {evt alive : Bool} {i : Nat} {c c' : Caller} {lk : Option Tid}
+    (hc : cinv lock i c) (h : callerStep lock evt alive i c = some (c', lk)) :
+    cinv lk i c' ∧ LockEff lock i lk := by
+  obtain ⟨h1, h2, h3⟩ := hc
+  unfold callerStep at h
+  rcases c with ⟨prog, pc, job, hist⟩
+  cases prog with
+  | nil => simp at h
+  | cons op rest =>
+    cases pc <;> cases op <;> simp only [] at h <;> (repeat' (split at h)) <;>
+      first
+      | (simp only [reduceCtorEq] at h; done)
+      | (simp only [Option.some.injEq, Prod.mk.injEq] at h
+         obtain ⟨rfl, rfl⟩ := h
+         refine ⟨?_, ?_⟩
+         · simp_all [cinv, pcOk, jobOk, critPc, finish, Op.isClose] <;> (try (cases rest <;> simp))
+         · first
+           | exact LockEff.same
+           | exact LockEff.acq (by simp_all)
+           | exact LockEff.rel (by simp_all [critPc, Op.isClose]))
+
+theorem forall_updAt {P : Nat → Caller → Prop} (l : List Caller) (k : Nat) (f : Caller → Caller)
+    (hP : ∀ i c, i ≠ k → l[i]? = some c → P i c) (hk : ∀ c, l[k]? = some c → P k (f c)) :
+    ∀ i c, (updAt l k f)[i]? = some c → P i c := by
+  intro i c h
+  rw [getElem?_updAt] at h
+  split at h
+  · subst i
+    cases hl : l[k]? with
+    | none => simp [hl] at h
+    | some c0 => simp [hl] at h; exact h ▸ hk c0 hl
+  · rename_i hne; exact hP i c hne h
+
+theorem cinv_jobUpd {lock : Option Tid} {i : Nat} {c c' : Caller} (h : cinv lock i c)
+    (ho : c'.own = c.own) (hj : c'.job = .none ↔ c.job = .none) : cinv lock i c' := by
+  rcases c with ⟨p, pc, j, hi⟩
+  rcases c' with ⟨p', pc', j', hi'⟩
+  simp only [Caller.own, Prod.mk.injEq] at ho
+  obtain ⟨rfl, rfl, rfl⟩ := ho
+  simp only at hj
+  obtain ⟨h1, h2, h3⟩ := h
+  refine ⟨h1, ?_, h3⟩
+  revert h2
+  cases pc' <;> simp [jobOk, hj]
+
+theorem cinv_setJob {lock : Option Tid} {i : Nat} {c : Caller} {j : Job} (h : cinv lock i c)
+    (hc : c.job ≠ .none) (hj : j ≠ .none) : cinv lock i (setJob j c) :=
+  cinv_jobUpd h rfl (by simp [setJob, hc, hj])
+
+theorem cinv_resolveBlocked {lock : Option Tid} {i : Nat} {c : Caller} {o : Outcome} (h : cinv lock i c) :
+    cinv lock i (resolveBlocked o c) := by
+  apply cinv_jobUpd h (own_resolveBlocked o c)
+  unfold resolveBlocked
+  split <;> simp_all
+
+theorem cinv_lock_irrelevant {lock lock' : Option Tid} {i : Nat} {c : Caller} (h : cinv lock i c)
+    (hl : lock = some (.caller i) ↔ lock' = some (.caller i)) : cinv lock' i c :=
+  ⟨h.1, h.2.1, h.2.2.trans hl⟩
+
+theorem minBlocked_some {cs : List Caller} {h t : Nat} (hm : minBlocked cs = some (h, t)) :
+    ∃ c, cs[h]? = some c ∧ c.job = .blocked t := by
+  induction cs generalizing h t with
+  | nil => simp [minBlocked] at hm
+  | cons c cs ih =>
+    unfold minBlocked at hm
+    split at hm
+    · rename_i t0 j t' hj hr
+      split at hm
+      · simp only [Option.some.injEq, Prod.mk.injEq] at hm
+        obtain ⟨rfl, rfl⟩ := hm
+        exact ⟨c, by simp, hj⟩
+      · simp only [Option.some.injEq, Prod.mk.injEq] at hm
+        obtain ⟨rfl, rfl⟩ := hm
+        obtain ⟨c1, h1, h2⟩ := ih hr
+        exact ⟨c1, by simpa using h1, h2⟩
+    · rename_i t0 hj hr
+      simp only [Option.some.injEq, Prod.mk.injEq] at hm
+      obtain ⟨rfl, rfl⟩ := hm
+      exact ⟨c, by simp, hj⟩
+    · rename_i j t' hr _
+      simp only [Option.some.injEq, Prod.mk.injEq] at hm
+      obtain ⟨rfl, rfl⟩ := hm
+      obtain ⟨c1, h1, h2⟩ := ih hr
+      exact ⟨c1, by simpa using h1, h2⟩
+    · simp at hm
+
+theorem minBlocked_none {cs : List Caller} (hm : minBlocked cs = none) :
+    ∀ (i : Nat) (c : Caller), cs[i]? = some c → ∀ t : Nat, c.job ≠ Job.blocked t := by
+  induction cs with
+  | nil => simp
+  | cons c cs ih =>
+    unfold minBlocked at hm
+    split at hm
+    · split at hm <;> simp at hm
+    · simp at hm
+    · simp at hm
+    · rename_i hr hnb
+      intro i c1 hi t
+      cases i with
+      | zero =>
+        simp at hi; subst hi
+        intro hb
+        exact hnb t hb
+      | succ i => exact ih hr i c1 (by simpa using hi) t
+
+/-! ### preservation of the basic invariant -/
+
+theorem ginv_lockEff {s : St} {i : Nat} {lk : Option Tid} {cs : List Caller} (hg : ginv s = true)
+    (he : LockEff s.lock i lk) : ginv { s with callers := cs, lock := lk } = true := by
+  cases he with
+  | same => simpa [ginv] using hg
+  | acq h => revert hg; simp only [ginv]; cases s.closePc <;> simp_all
+  | rel h => revert hg; simp only [ginv]; cases s.closePc <;> simp_all
+
+theorem cinv_other_lockEff {lock lk : Option Tid} {i j : Nat} {c : Caller} (hne : j ≠ i)
+    (hc : cinv lock j c) (he : LockEff lock i lk) : cinv lk j c := by
+  cases he with
+  | same => exact hc
+  | acq h => exact cinv_lock_irrelevant hc (by subst h; simp; exact fun e => hne e.symm)
+  | rel h => exact cinv_lock_irrelevant hc (by subst h; simp; exact fun e => hne e.symm)
+
+theorem inv1_stepCaller {s s' : St} {i : Nat} (hI : Inv1 s) (h : stepCaller s i = some s') : Inv1 s' := by
+  obtain ⟨c, c', lk, hc, hcs, rfl⟩ := stepCaller_spec h
+  obtain ⟨hg, hcall⟩ := hI
+  obtain ⟨hc', he⟩ := callerStep_cinv (hcall i c hc) hcs
+  refine ⟨ginv_lockEff hg he, ?_⟩
+  simp only
+  apply forall_updAt (P := fun j cj => cinv lk j cj)
+  · intro j cj hne hj
+    exact cinv_other_lockEff hne (hcall j cj hj) he
+  · intro _ _; exact hc'
+
+theorem ginv_callers {s : St} {cs : List Caller} (hg : ginv s = true) : ginv { s with callers := cs } = true := by
+  simpa [ginv] using hg
+
+theorem inv1_stepJob {s s' : St} {i : Nat} (hI : Inv1 s) (h : stepJob s i = some s') : Inv1 s' := by
+  obtain ⟨hg, hcall⟩ := hI
+  unfold stepJob at h
+  split at h
+  · split at h
+    · simp at h
+    · rename_i c hc
+      have hci := hcall i c hc
+      split at h
+      · -- recv
+        rename_i hjob
+        split at h
+        · simp only [Option.some.injEq] at h; subst h
+          refine ⟨by simpa [ginv] using hg, ?_⟩
+          apply forall_updAt (P := fun j cj => cinv s.lock j cj)
+          · intro j cj _ hj; exact hcall j cj hj
+          · intro c0 hc0; rw [hc] at hc0; cases hc0; exact cinv_setJob hci (by simp [hjob]) (by simp)
+        · split at h
+          · simp only [Option.some.injEq] at h; subst h
+            refine ⟨by simpa [ginv] using hg, ?_⟩
+            apply forall_updAt (P := fun j cj => cinv s.lock j cj)
+            · intro j cj _ hj; exact hcall j cj hj
+            · intro c0 hc0; rw [hc] at hc0; cases hc0; exact cinv_setJob hci (by simp [hjob]) (by simp)
+          · simp only [Option.some.injEq] at h; subst h
+            refine ⟨by simpa [ginv] using hg, ?_⟩
+            apply forall_updAt (P := fun j cj => cinv s.lock j cj)
+            · intro j cj _ hj; exact hcall j cj hj
+            · intro c0 hc0; rw [hc] at hc0; cases hc0; exact cinv_setJob hci (by simp [hjob]) (by simp)
+      · rename_i hjob
+        simp only [Option.some.injEq] at h; subst h
+        refine ⟨by simpa [ginv] using hg, ?_⟩
+        apply forall_updAt (P := fun j cj => cinv s.lock j cj)
+        · intro j cj _ hj; exact hcall j cj hj
+        · intro c0 hc0; rw [hc] at hc0; cases hc0; exact cinv_setJob hci (by simp [hjob]) (by simp)
+      · rename_i hjob
+        simp only [Option.some.injEq] at h; subst h
+        refine ⟨by revert hg; simp only [ginv, ClosePc.initiate]; cases s.closePc <;> simp, ?_⟩
+        apply forall_updAt (P := fun j cj => cinv s.lock j cj)
+        · intro j cj _ hj; exact hcall j cj hj
+        · intro c0 hc0; rw [hc] at hc0; cases hc0; exact cinv_setJob hci (by simp [hjob]) (by simp)
+      · rename_i hjob
+        simp only [Option.some.injEq] at h; subst h
+        refine ⟨by revert hg; simp only [ginv, ClosePc.initiate]; cases s.closePc <;> simp, ?_⟩
+        apply forall_updAt (P := fun j cj => cinv s.lock j cj)
+        · intro j cj _ hj; exact hcall j cj hj
+        · intro c0 hc0; rw [hc] at hc0; cases hc0; exact cinv_setJob hci (by simp [hjob]) (by simp)
+      · rename_i hjob
+        simp only [Option.some.injEq] at h; subst h
+        refine ⟨by simpa [ginv] using hg, ?_⟩
+        apply forall_updAt (P := fun j cj => cinv s.lock j cj)
+        · intro j cj _ hj; exact hcall j cj hj
+        · intro c0 hc0; rw [hc] at hc0; cases hc0; exact cinv_setJob hci (by simp [hjob]) (by simp)
+      · simp at h
+  · simp at h
+
+/-! ### what the loop thread can do to a caller record: only its future changes, and a future never appears or disappears -/
+
+/-- what running a submitted coroutine of kind `k` can leave in the future -/
+def JobRes : JobKind → Job → Prop
+  | .recv, j => (∃ t, j = .blocked t) ∨ (∃ o, j = .done o)
+  | .send, j => j = .done .ok
+  | .initClose, j => j = .done .ok
+  | .logout, j => j = .done .ok
+  | .slow, j => j = .running
+
+theorem JobRes.ne_none {k : JobKind} {j : Job} (h : JobRes k j) : j ≠ .none := by
+  cases k <;> simp only [JobRes] at h
+  · rcases h with ⟨t, rfl⟩ | ⟨o, rfl⟩ <;> simp
+  all_goals (subst h; simp)
+
+/-- `r` = the step may run submitted coroutines (only `Label.job` does) -/
+def JobUpd (r : Bool) (c c' : Caller) : Prop :=
+  c'.own = c.own ∧
+    (c'.job = c.job ∨ (∃ t o, c.job = .blocked t ∧ c'.job = .done o) ∨
+      (r = true ∧ ∃ k, c.job = .submitted k ∧ JobRes k c'.job))
+
+theorem JobUpd.refl (r : Bool) (c : Caller) : JobUpd r c c := ⟨rfl, Or.inl rfl⟩
+
+theorem JobUpd.trans {r : Bool} {a b c : Caller} (h1 : JobUpd r a b) (h2 : JobUpd r b c) : JobUpd r a c := by
+  refine ⟨h2.1.trans h1.1, ?_⟩
+  rcases h1.2 with e1 | ⟨t, o, hb, hd⟩ | ⟨hr1, k, hs, hr⟩
+  · have := h2.2; rw [e1] at this; exact this
+  · rcases h2.2 with e2 | ⟨t2, o2, hb2, _⟩ | ⟨_, k2, hs2, _⟩
+    · exact Or.inr (Or.inl ⟨t, o, hb, e2.trans hd⟩)
+    · rw [hd] at hb2; simp at hb2
+    · rw [hd] at hs2; simp at hs2
+  · rcases h2.2 with e2 | ⟨t2, o2, hb2, hd2⟩ | ⟨_, k2, hs2, _⟩
+    · exact Or.inr (Or.inr ⟨hr1, k, hs, e2 ▸ hr⟩)
+    · refine Or.inr (Or.inr ⟨hr1, k, hs, ?_⟩)
+      cases k <;> simp only [JobRes] at hr
+      · simp only [JobRes]; exact Or.inr ⟨o2, hd2⟩
+      all_goals (rw [hr] at hb2; simp at hb2)
+    · exfalso
+      cases k <;> simp only [JobRes] at hr
+      · rcases hr with ⟨t, ht⟩ | ⟨o, ho⟩
+        · rw [ht] at hs2; simp at hs2
+        · rw [ho] at hs2; simp at hs2
+      all_goals (rw [hr] at hs2; simp at hs2)
+
+theorem JobUpd.none_iff {r : Bool} {c c' : Caller} (h : JobUpd r c c') : c'.job = .none ↔ c.job = .none := by
+  rcases h.2 with e | ⟨t, o, hb, hd⟩ | ⟨_, k, hs, hr⟩
+  · rw [e]
+  · simp [hb, hd]
+  · simp [hs, hr.ne_none]
+
+theorem jobUpd_run {c : Caller} {k : JobKind} {j : Job} (hc : c.job = .submitted k) (hr : JobRes k j) :
+    JobUpd true c (setJob j c) := ⟨rfl, Or.inr (Or.inr ⟨rfl, k, hc, hr⟩)⟩
+
+theorem jobUpd_wake {r : Bool} {c : Caller} {t : Nat} {o : Outcome} (hc : c.job = .blocked t) :
+    JobUpd r c (setJob (.done o) c) := ⟨rfl, Or.inr (Or.inl ⟨t, o, hc, rfl⟩)⟩
+
+theorem jobUpd_resolveBlocked (r : Bool) (o : Outcome) (c : Caller) : JobUpd r c (resolveBlocked o c) := by
+  refine ⟨own_resolveBlocked o c, ?_⟩
+  unfold resolveBlocked
+  split
+  · rename_i t ht; exact Or.inr (Or.inl ⟨t, o, ht, rfl⟩)
+  · exact Or.inl rfl
+
+/-- pointwise relation between the caller lists of two states -/
+def CallersUpd (r : Bool) (l l' : List Caller) : Prop :=
+  ∀ (j : Nat) (c' : Caller), l'[j]? = some c' → ∃ c : Caller, l[j]? = some c ∧ JobUpd r c c'
+
+theorem CallersUpd.refl (r : Bool) (l : List Caller) : CallersUpd r l l := by
+  intro _ c' h; exact ⟨c', h, JobUpd.refl r c'⟩
+
+theorem CallersUpd.trans {r : Bool} {a b c : List Caller} (h1 : CallersUpd r a b) (h2 : CallersUpd r b c) :
+    CallersUpd r a c := by
+  unfold CallersUpd; intro j c'' h
+  obtain ⟨c', hc', u2⟩ := h2 j c'' h
+  obtain ⟨c0, hc0, u1⟩ := h1 j c' hc'
+  exact ⟨c0, hc0, u1.trans u2⟩
+
+theorem callersUpd_updAt (r : Bool) (l : List Caller) (k : Nat) (f : Caller → Caller)
+    (hk : ∀ c, l[k]? = some c → JobUpd r c (f c)) : CallersUpd r l (updAt l k f) := by
+  unfold CallersUpd; intro j c' h
+  rw [getElem?_updAt] at h
+  split at h
+  · subst j
+    cases hl : l[k]? with
+    | none => simp [hl] at h
+    | some c0 => simp [hl] at h; exact ⟨c0, rfl, h ▸ hk c0 hl⟩
+  · exact ⟨c', h, JobUpd.refl r c'⟩
+
+theorem stepJob_callers {s s' : St} {i : Nat} (h : stepJob s i = some s') : CallersUpd true s.callers s'.callers := by
+  unfold stepJob at h
+  split at h
+  · split at h
+    · simp at h
+    · rename_i c hc
+      have key : ∀ (k : JobKind) (j : Job), c.job = .submitted k → JobRes k j →
+          CallersUpd true s.callers (updAt s.callers i (setJob j)) := by
+        intro k j hcj hj
+        apply callersUpd_updAt
+        intro c0 hc0; rw [hc] at hc0; cases hc0; exact jobUpd_run hcj hj
+      split at h
+      · rename_i hjob
+        split at h
+        · simp only [Option.some.injEq] at h; subst h; exact key _ _ hjob (by simp [JobRes])
+        · split at h <;> (simp only [Option.some.injEq] at h; subst h; exact key _ _ hjob (by simp [JobRes]))
+      all_goals first
+        | (rename_i hjob; simp only [Option.some.injEq] at h; subst h; exact key _ _ hjob (by simp [JobRes]))
+        | simp at h
+  · simp at h
+
+theorem stepClose_callers {s s' : St} (h : stepClose s = some s') : CallersUpd false s.callers s'.callers := by
+  unfold stepClose at h
+  split at h
+  · simp at h
+  · split at h
+    · simp at h
+    · simp only [Option.some.injEq] at h; subst h
+      simp only
+      split
+      · exact callersUpd_updAt _ _ _ _ (fun c _ => jobUpd_resolveBlocked _ _ c)
+      · exact CallersUpd.refl _ _
+  all_goals first
+    | (simp only [Option.some.injEq] at h; subst h; exact CallersUpd.refl _ _)
+    | (split at h <;> first | (simp only [Option.some.injEq] at h; subst h; exact CallersUpd.refl _ _) | simp at h)
+    | simp at h
+
+theorem stepStop_callers {s s' : St} (h : stepStop s = some s') : CallersUpd false s.callers s'.callers := by
+  unfold stepStop at h
+  split at h
+  · simp only [Option.some.injEq] at h; subst h; exact CallersUpd.refl _ _
+  · simp at h
+
+theorem stepPeer_callers {s s' : St} (h : stepPeer s = some s') : CallersUpd false s.callers s'.callers := by
+  unfold stepPeer at h
+  split at h
+  · simp at h
+  · rename_i ev rest hp
+    split at h
+    · simp at h
+    · split at h
+      · simp only [Option.some.injEq] at h; subst h; exact CallersUpd.refl _ _
+      · split at h
+        · split at h
+          · simp only [Option.some.injEq] at h; subst h; exact CallersUpd.refl _ _
+          · split at h
+            · rename_i hh t hm
+              simp only [Option.some.injEq] at h; subst h
+              simp only
+              obtain ⟨ch, hch, hjb⟩ := minBlocked_some hm
+              have u1 : CallersUpd false s.callers (updAt s.callers hh (setJob (.done .msg))) := by
+                apply callersUpd_updAt
+                intro c0 hc0; rw [hch] at hc0; cases hc0; exact jobUpd_wake hjb
+              split
+              · split
+                · exact u1
+                · exact u1.trans (callersUpd_updAt _ _ _ _ (fun c _ => jobUpd_resolveBlocked _ _ c))
+              · exact u1
+            · simp only [Option.some.injEq] at h; subst h; exact CallersUpd.refl _ _
+        · simp only [Option.some.injEq] at h; subst h; exact CallersUpd.refl _ _
+        · simp only [Option.some.injEq] at h; subst h; exact CallersUpd.refl _ _
+
+def LockIff (s s' : St) : Prop := ∀ j : Nat, s.lock = some (.caller j) ↔ s'.lock = some (.caller j)
+
+theorem inv1_of_callersUpd {s s' : St} {r : Bool} (hI : Inv1 s) (hu : CallersUpd r s.callers s'.callers)
+    (hg : ginv s' = true) (hl : LockIff s s') : Inv1 s' := by
+  refine ⟨hg, ?_⟩
+  intro j c' hc'
+  obtain ⟨c, hc, u⟩ := hu j c' hc'
+  exact cinv_lock_irrelevant (cinv_jobUpd (hI.2 j c hc) u.1 u.none_iff) (hl j)
+
+theorem stepJob_glob {s s' : St} {i : Nat} (hg : ginv s = true) (h : stepJob s i = some s') :
+    ginv s' = true ∧ LockIff s s' := by
+  unfold stepJob at h
+  split at h
+  · split at h
+    · simp at h
+    · split at h
+      · split at h
+        · simp only [Option.some.injEq] at h; subst h; exact ⟨by simpa [ginv] using hg, fun _ => Iff.rfl⟩
+        · split at h <;>
+            (simp only [Option.some.injEq] at h; subst h; exact ⟨by simpa [ginv] using hg, fun _ => Iff.rfl⟩)
+      all_goals first
+        | (simp only [Option.some.injEq] at h; subst h
+           exact ⟨by revert hg; simp only [ginv, ClosePc.initiate]; cases s.closePc <;> simp, fun _ => Iff.rfl⟩)
+        | simp at h
+  · simp at h
+
+theorem stepClose_glob {s s' : St} (hg : ginv s = true) (h : stepClose s = some s') :
+    ginv s' = true ∧ LockIff s s' := by
+  unfold stepClose at h
+  split at h <;> rename_i hpc
+  · simp at h
+  · split at h
+    · simp at h
+    · simp only [Option.some.injEq] at h; subst h
+      exact ⟨by revert hg; simp [ginv, hpc] <;> (intros; simp_all), fun _ => Iff.rfl⟩
+  · simp only [Option.some.injEq] at h; subst h
+    exact ⟨by revert hg; simp [ginv, hpc] <;> (intros; simp_all), fun _ => Iff.rfl⟩
+  · split at h
+    · rename_i hlk
+      simp only [Option.some.injEq] at h; subst h
+      exact ⟨by revert hg; simp [ginv, hpc] <;> (intros; simp_all), fun j => by simp [hlk]⟩
+    · simp at h
+  · split at h
+    · rename_i he
+      simp only [Option.some.injEq] at h; subst h
+      revert hg; simp [ginv, hpc, he]
+    · rename_i he
+      simp only [Option.some.injEq] at h; subst h
+      exact ⟨by revert hg; simp [ginv, hpc] <;> (intros; simp_all), fun _ => Iff.rfl⟩
+  · simp only [Option.some.injEq] at h; subst h
+    exact ⟨by revert hg; simp [ginv, hpc] <;> (intros; simp_all), fun _ => Iff.rfl⟩
+  · simp only [Option.some.injEq] at h; subst h
+    refine ⟨by revert hg; simp [ginv, hpc] <;> (intros; simp_all), fun j => ?_⟩
+    have : s.lock = some .loop := by revert hg; simp [ginv, hpc]; intros; simp_all
+    simp [this]
+  · simp at h
+
+theorem stepStop_glob {s s' : St} (hg : ginv s = true) (h : stepStop s = some s') :
+    ginv s' = true ∧ LockIff s s' := by
+  unfold stepStop at h
+  split at h
+  · rename_i hc
+    simp only [Option.some.injEq] at h; subst h
+    refine ⟨?_, fun _ => Iff.rfl⟩
+    revert hg hc; simp only [ginv, ClosePc.busy]; cases s.closePc <;> simp_all
+  · simp at h
+
+theorem stepPeer_glob {s s' : St} (hg : ginv s = true) (h : stepPeer s = some s') :
+    ginv s' = true ∧ LockIff s s' := by
+  unfold stepPeer at h
+  split at h
+  · simp at h
+  · split at h
+    · simp at h
+    · split at h
+      · simp only [Option.some.injEq] at h; subst h; exact ⟨by simpa [ginv] using hg, fun _ => Iff.rfl⟩
+      · split at h
+        · split at h
+          · simp only [Option.some.injEq] at h; subst h; exact ⟨by simpa [ginv] using hg, fun _ => Iff.rfl⟩
+          · split at h <;>
+              (simp only [Option.some.injEq] at h; subst h; exact ⟨by simpa [ginv] using hg, fun _ => Iff.rfl⟩)
+        all_goals
+          (simp only [Option.some.injEq] at h; subst h
+           exact ⟨by revert hg; simp only [ginv, ClosePc.initiate]; cases s.closePc <;> simp, fun _ => Iff.rfl⟩)
+
+theorem inv1_step {s s' : St} {l : Label} (hI : Inv1 s) (h : step s l = some s') : Inv1 s' := by
+  cases l with
+  | caller i => exact inv1_stepCaller hI h
+  | job i => exact inv1_of_callersUpd hI (stepJob_callers h) (stepJob_glob hI.1 h).1 (stepJob_glob hI.1 h).2
+  | close => exact inv1_of_callersUpd hI (stepClose_callers h) (stepClose_glob hI.1 h).1 (stepClose_glob hI.1 h).2
+  | stop => exact inv1_of_callersUpd hI (stepStop_callers h) (stepStop_glob hI.1 h).1 (stepStop_glob hI.1 h).2
+  | peer => exact inv1_of_callersUpd hI (stepPeer_callers h) (stepPeer_glob hI.1 h).1 (stepPeer_glob hI.1 h).2
+
+theorem inv1_init (cfg : Cfg) : Inv1 (init cfg) := by
+  refine ⟨by simp [ginv, init], ?_⟩
+  intro i c hc
+  simp only [init, List.getElem?_map] at hc
+  cases hp : cfg.progs[i]? with
+  | none => simp [hp] at hc
+  | some p =>
+    simp [hp] at hc; subst hc
+    cases p <;> simp [cinv, initCaller, pcOk, jobOk, critPc, init]
+
+theorem inv1_reachable {cfg : Cfg} {s : St} (h : Reachable cfg s) : Inv1 s :=
+  reachable_invariant Inv1 cfg (inv1_init cfg) (fun _ _ _ hI hs => inv1_step hI hs) s h
+
+/-! ### monotone facts: the thread never comes back, the close procedure never goes back to `idle` -/
+
+theorem initiate_ne_idle (p : ClosePc) : p.initiate ≠ .idle := by cases p <;> simp [ClosePc.initiate]
+
+theorem step_mono {s s' : St} {l : Label} (h : step s l = some s') :
+    (s.loopAlive = false → s'.loopAlive = false) ∧ (s.closePc ≠ .idle → s'.closePc ≠ .idle) := by
+  cases l with
+  | caller i => obtain ⟨c, c', lk, _, _, rfl⟩ := stepCaller_spec h; simp
+  | job i =>
+    simp only [step] at h; unfold stepJob at h
+    (repeat' split at h) <;> first
+      | (simp at h; done)
+      | (simp only [Option.some.injEq] at h; subst h; simp_all [initiate_ne_idle])
+  | close =>
+    simp only [step] at h; unfold stepClose at h
+    (repeat' split at h) <;> first
+      | (simp at h; done)
+      | (simp only [Option.some.injEq] at h; subst h; simp_all)
+  | stop =>
+    simp only [step] at h; unfold stepStop at h
+    (repeat' split at h) <;> first
+      | (simp at h; done)
+      | (simp only [Option.some.injEq] at h; subst h; simp_all)
+  | peer =>
+    simp only [step] at h; unfold stepPeer at h
+    (repeat' split at h) <;> first
+      | (simp at h; done)
+      | (simp only [Option.some.injEq] at h; subst h; simp_all [initiate_ne_idle])
+
+/-- running an `initiate_close` / `logout` coroutine leaves the close procedure started -/
+theorem stepJob_closeKind {s s' : St} {i : Nat} {c : Caller} {k : JobKind} (h : stepJob s i = some s')
+    (hc : s.callers[i]? = some c) (hk : c.job = .submitted k) (hcl : k = .initClose ∨ k = .logout) :
+    s'.closePc ≠ .idle := by
+  unfold stepJob at h
+  rw [hc] at h
+  simp only [hk] at h
+  rcases hcl with rfl | rfl <;> simp only at h <;> split at h <;>
+    first
+      | (simp at h; done)
+      | (simp only [Option.some.injEq] at h; subst h; exact initiate_ne_idle _)
+
+/-- the only caller whose future a `job i` step changes is `i` -/
+theorem stepJob_others {s s' : St} {i j : Nat} (h : stepJob s i = some s') (hne : j ≠ i) :
+    s'.callers[j]? = s.callers[j]? := by
+  unfold stepJob at h
+  (repeat' split at h) <;> first
+    | (simp at h; done)
+    | (simp only [Option.some.injEq] at h; subst h; simp [getElem?_updAt_ne _ _ hne])
+
 end NasdaqModel.SyncFacade
